@@ -301,8 +301,9 @@ class ReaderEval:
         rt = h.raw.get("rett") or {}
         # a bounded reader of a 16-bit word: its value is a symbol named by the position it reads (0 when handed no position)
         if rt.get("k") == "int" and len(h.params) == 1 and h.params[0]["t"].get("k") == "ptr":
-            from rules.c03 import bounded_reader
-            if bounded_reader(self.fb, h) is True:
+            # (whether its guard is sound is C03-R2b's question; what it yields is the word at the position it is handed)
+            reads_ptr = any(x.get("k") == "un" and x.get("op") == "*" and h.params[0]["decl"] in facts.reads(x) for x in h.nodes())
+            if reads_ptr:
                 f = apply_pins(argforms[0], pins)
                 if f.get("NULL"):
                     return [({1: 0}, pins)]
